@@ -7,7 +7,11 @@ def handlers : List (List String → Option String) := [
   Lou.Alloc.handle?,
   Lou.Resolve.handle?,
   Lou.Log.handle?,
-  Lou.Lexer.handle?
+  Lou.Lexer.handle?,
+  Lou.HyphProto.handle?,
+  Lou.Meta.handle?,
+  Lou.ImageProto.handle?,
+  Lou.Cache.handle?
 ]
 
 def handleLine (line : String) : String :=
@@ -19,14 +23,51 @@ def handleLine (line : String) : String :=
     | some r => r
     | none => "UNSUPPORTED"
 
-partial def loop (h : IO.FS.Stream) (out : IO.FS.Stream) : IO Unit := do
+/-- tables registered with LOADTABLE (name ↦ logical table) -/
+abbrev Registry := List (String × Lou.Table)
+
+partial def loop (h : IO.FS.Stream) (out : IO.FS.Stream) (reg : Registry) : IO Unit := do
   let line ← h.getLine
   if line.isEmpty then return ()
-  let r := handleLine line
-  if !r.isEmpty then out.putStrLn r
-  loop h out
+  let toks := (line.trimAscii.toString.splitOn " ").filter (· != "")
+  match toks with
+  | "LOADTABLE" :: name :: rest =>
+    match Lou.parseDump (" ".intercalate rest) with
+    | some t =>
+      out.putStrLn "OK"
+      loop h out ((name, t) :: reg.filter (·.1 != name))
+    | none =>
+      out.putStrLn "BADOP"
+      loop h out reg
+  | "MCOMPILE" :: name :: ents =>
+    match ents.mapM Lou.EngineProto.parseEntry with
+    | none =>
+      out.putStrLn "BADOP"
+      loop h out reg
+    | some es =>
+      match Lou.Compile.compile es with
+      | none =>
+        out.putStrLn "T null"
+        loop h out reg
+      | some t =>
+        out.putStrLn (Lou.EngineProto.showTable t)
+        loop h out ((name, t) :: reg.filter (·.1 != name))
+  | ["MDUMP", name] =>
+    match reg.find? (·.1 == name) with
+    | some e => out.putStrLn (Lou.EngineProto.showTable e.2)
+    | none => out.putStrLn "BADOP"
+    loop h out reg
+  | _ =>
+    match Lou.EngineProto.handle? reg toks with
+    | some r =>
+      out.putStrLn r
+      loop h out reg
+    | none =>
+      let r := handleLine line
+      if !r.isEmpty then out.putStrLn r
+      loop h out reg
 
 def main : IO Unit := do
   let i ← IO.getStdin
   let o ← IO.getStdout
-  loop i o
+  loop i o []
